@@ -149,6 +149,64 @@ def hygiene(ctx: Ctx, rep: Report) -> None:
     rep.floor('UNUSED', len(g), 25, 'grammar rules')
 
 
+def eqqasm(ctx: Ctx, rep: Report) -> None:
+    """EQQASM: two gates that `__eq__` tells apart must not be written with
+    the same OpenQASM text.  For every gate class that defines both
+    `__eq__` and a QASM writer (`qasm_name`, `get_qasm`,
+    `get_qasm_gate_def`), each `self.<attr>` that `__eq__` compares is read
+    by the writer (to spell it, or to refuse).  Exempt: radix attributes
+    (the encoder refuses non-qubit circuits as a whole) and attributes that
+    `Operation.get_qasm` reads from the gate on the class's behalf
+    (`frozen_params`)."""
+    R = 'EQQASM'
+    opq = ctx.fn('bqskit/ir/operation.py:Operation.get_qasm')
+    by_operation = {x.attr for x in ast.walk(opq.node)
+                    if isinstance(x, ast.Attribute)}
+    n = 0
+    for c in ctx.index.classes.values():
+        if not c.path.startswith('bqskit/ir/gates/'):
+            continue
+        eq = c.methods.get('__eq__')
+        writers = [c.methods[k] for k in (
+            'qasm_name', 'get_qasm', 'get_qasm_gate_def') if k in c.methods]
+        if eq is None or not writers:
+            continue
+        n += 1
+        rep.count()
+        rep.seen(eq.qualname)
+
+        def attrs(fn) -> set[str]:
+            return {
+                x.attr for x in ast.walk(fn.node)
+                if isinstance(x, ast.Attribute)
+                and isinstance(x.value, ast.Name) and x.value.id == 'self'
+            }
+        compared = attrs(eq)
+        written = set().union(*[attrs(w) for w in writers])
+        # methods Operation.get_qasm calls on the gate write on its behalf
+        for k in ast.walk(opq.node):
+            if isinstance(k, ast.Call) and isinstance(
+                    k.func, ast.Attribute) and norm(
+                        k.func.value) == 'self.gate':
+                m = ctx.index.lookup_method(c, k.func.attr)
+                if m is not None and m.cls is c:
+                    written |= attrs(m)
+        missing = sorted(
+            a for a in compared - written
+            if 'radix' not in a and a not in by_operation
+        )
+        rep.check(
+            not missing, R, c.name, c.path, writers[0].lineno,
+            f'every attribute __eq__ compares ({", ".join(sorted(compared))}) '
+            'is read by the QASM writer',
+            f'{c.name}.__eq__ distinguishes gates by `{", ".join(missing)}` '
+            'but the QASM writer never reads it: unequal gates are written '
+            'with the same text, and what is read back is a different gate',
+            key='ignored:' + ','.join(missing),
+        )
+    rep.floor(R, n, 4, 'gate classes with both __eq__ and a QASM writer')
+
+
 def listwalk(ctx: Ctx, rep: Report) -> None:
     R = 'LISTWALK'
     g = parse_grammar(grammar_text(ctx))
